@@ -282,6 +282,58 @@ func expandBoolFact(cond ssa.Value, val bool, f func(cond ssa.Value, val bool) b
 		}
 		break
 	}
+	// `err` assigned on several paths and tested once (`if err == nil { err = g() }; if err != nil {…}`):
+	// on the nil side of the test the ways in on which the incoming error is known to be set are
+	// impossible; if one way remains, its facts hold
+	if x, nilWhenTrue, isNT := nilTest(c); isNT && nilWhenTrue == v && depth <= 3 {
+		if ephi, isPhi := x.(*ssa.Phi); isPhi && isErrorType(ephi.Type()) {
+			possible, at := 0, -1
+			for i, e := range ephi.Edges {
+				p := ephi.Block().Preds[i]
+				knownSet := false
+				edgeFactsOnD(p, ephi.Block(), func(c2 ssa.Value, v2 bool) bool {
+					c3, v3 := c2, v2
+					for {
+						if u, ok := c3.(*ssa.UnOp); ok && u.Op == token.NOT {
+							c3, v3 = u.X, !v3
+							continue
+						}
+						break
+					}
+					if y, nwt, ok := nilTest(c3); ok && y == e && nwt != v3 {
+						knownSet = true
+						return false
+					}
+					return true
+				}, depth+1)
+				if knownSet {
+					continue
+				}
+				possible++
+				at = i
+			}
+			if possible == 1 && at >= 0 {
+				if !f(cond, val) {
+					return false
+				}
+				// the incoming value is nil …
+				e := ephi.Edges[at]
+				if _, isConst := e.(*ssa.Const); !isConst {
+					nilCmp := &ssa.BinOp{Op: token.EQL, X: e, Y: ssa.NewConst(nil, e.Type())}
+					if !f(nilCmp, true) {
+						return false
+					}
+				}
+				// … and so is everything known on that way in
+				cont := true
+				edgeFactsOnD(ephi.Block().Preds[at], ephi.Block(), func(c2 ssa.Value, v2 bool) bool {
+					cont = f(c2, v2)
+					return cont
+				}, depth+1)
+				return cont
+			}
+		}
+	}
 	phi, ok := loweredBoolPhi(c)
 	if !ok || depth > 3 {
 		return f(cond, val)
